@@ -314,7 +314,52 @@ func enumDeviations(sizes []int, maxDev int, fn func(s []int)) {
 	rec(0, maxDev)
 }
 
+// violCollector keeps, per violation key, the smallest counterexample (fewest
+// deviations, then shortest / lexicographically first name) so that the
+// reported case does not depend on goroutine timing.
+type violCollector struct {
+	mu sync.Mutex
+	m  map[string]*collected
+}
+
+type collected struct {
+	rank   int
+	name   string
+	what   string
+	replay any
+	count  int
+}
+
+func (c *violCollector) add(key string, rank int, name, what string, replay any) {
+	c.mu.Lock()
+	defer c.mu.Unlock()
+	e := c.m[key]
+	if e == nil {
+		c.m[key] = &collected{rank, name, what, replay, 1}
+		return
+	}
+	e.count++
+	if rank < e.rank || (rank == e.rank && (len(name) < len(e.name) || (len(name) == len(e.name) && name < e.name))) {
+		e.rank, e.name, e.what, e.replay = rank, name, what, replay
+	}
+}
+
+func (c *violCollector) flush(run *evid.Run) {
+	var keys []string
+	for k := range c.m {
+		keys = append(keys, k)
+	}
+	sort.Strings(keys)
+	for _, k := range keys {
+		e := c.m[k]
+		for i := 0; i < e.count; i++ {
+			run.Violation(k, e.what, e.replay)
+		}
+	}
+}
+
 type seamAStats struct {
+	vc                *violCollector
 	mu                sync.Mutex
 	accepts, rejects  int
 	acceptByDims      map[string]int
@@ -326,6 +371,16 @@ type seamAStats struct {
 // compares with the reference. spec may be nil (then only RefVerify decides).
 func (f *fixtures) judge(run *evid.Run, acc *enum.Acc, st *seamAStats, group, name string, raw [][]byte, spec []int, honest bool) {
 	exps := []*enum.Key{nil, f.S, f.O, f.T}
+	rank := 9
+	if spec != nil {
+		rank = 0
+		for _, v := range spec {
+			if v != 0 {
+				rank++
+			}
+		}
+	}
+	viol := func(key, what string, replay any) { st.vc.add(key, rank, name, what, replay) }
 	for ei, exp := range exps {
 		var expID peer.ID
 		var expBin []byte
@@ -355,7 +410,7 @@ func (f *fixtures) judge(run *evid.Run, acc *enum.Acc, st *seamAStats, group, na
 		nontrivial := !(honest && (ei == 0 || exp == f.S))
 		if p != nil {
 			acc.Case(group, caseKey, nontrivial, "panic")
-			run.Violation("panic/verify-peer-certificate", fmt.Sprintf("VerifyPeerCertificate panicked on %s: %v", caseKey, p), caseKey)
+			viol("panic/verify-peer-certificate", fmt.Sprintf("VerifyPeerCertificate panicked on %s: %v", caseKey, p), caseKey)
 			continue
 		}
 		var gotKey []byte
@@ -385,18 +440,18 @@ func (f *fixtures) judge(run *evid.Run, acc *enum.Acc, st *seamAStats, group, na
 		replay := map[string]any{"seam": "A", "case": caseKey, "chain_der_hex": hexChain(raw), "expected_peer": expID.String()}
 		switch {
 		case got && rr.Verdict == forge.MustReject:
-			run.Violation("accepts/"+rr.Class, fmt.Sprintf("ConfigForPeer(%s).VerifyPeerCertificate accepted chain %q which must be refused: %s", expName, name, rr.Why), replay)
+			viol("accepts/"+rr.Class, fmt.Sprintf("ConfigForPeer(%s).VerifyPeerCertificate accepted chain %q which must be refused: %s", expName, name, rr.Why), replay)
 		case !got && rr.Verdict == forge.MustAccept:
-			run.Violation("rejects-authentic", fmt.Sprintf("ConfigForPeer(%s).VerifyPeerCertificate refused the authentic chain %q: %v", expName, name, err), replay)
+			viol("rejects-authentic", fmt.Sprintf("ConfigForPeer(%s).VerifyPeerCertificate refused the authentic chain %q: %v", expName, name, err), replay)
 		}
 		if got {
 			if gotKey == nil {
-				run.Violation("no-key-on-accept", fmt.Sprintf("VerifyPeerCertificate accepted %q but delivered no key", caseKey), replay)
+				viol("no-key-on-accept", fmt.Sprintf("VerifyPeerCertificate accepted %q but delivered no key", caseKey), replay)
 			} else if rr.Key != nil && !bytes.Equal(gotKey, rr.Key) {
-				run.Violation("wrong-identity", fmt.Sprintf("VerifyPeerCertificate accepted %q but delivered a key that is not the one that signed the binding", caseKey), replay)
+				viol("wrong-identity", fmt.Sprintf("VerifyPeerCertificate accepted %q but delivered a key that is not the one that signed the binding", caseKey), replay)
 			}
 		} else if gotKey != nil {
-			run.Violation("key-delivered-on-reject", fmt.Sprintf("VerifyPeerCertificate refused %q but still delivered a key", caseKey), replay)
+			viol("key-delivered-on-reject", fmt.Sprintf("VerifyPeerCertificate refused %q but still delivered a key", caseKey), replay)
 		}
 		// PubKeyFromCertChain directly (no expected peer), once per chain
 		if ei == 0 {
@@ -430,13 +485,13 @@ func (f *fixtures) judge(run *evid.Run, acc *enum.Acc, st *seamAStats, group, na
 				acc.Case(group+"/direct", name, nontrivial, dout+"/ref-"+rr.Verdict.String())
 				switch {
 				case p != nil:
-					run.Violation("panic/pubkey-from-cert-chain", fmt.Sprintf("PubKeyFromCertChain panicked on %s: %v", name, p), replay)
+					viol("panic/pubkey-from-cert-chain", fmt.Sprintf("PubKeyFromCertChain panicked on %s: %v", name, p), replay)
 				case derr == nil && rr.Verdict == forge.MustReject:
-					run.Violation("accepts/"+rr.Class+"/pubkey-from-cert-chain", fmt.Sprintf("PubKeyFromCertChain accepted chain %q which must be refused: %s", name, rr.Why), replay)
+					viol("accepts/"+rr.Class+"/pubkey-from-cert-chain", fmt.Sprintf("PubKeyFromCertChain accepted chain %q which must be refused: %s", name, rr.Why), replay)
 				case derr != nil && rr.Verdict == forge.MustAccept:
-					run.Violation("rejects-authentic/pubkey-from-cert-chain", fmt.Sprintf("PubKeyFromCertChain refused the authentic chain %q: %v", name, derr), replay)
+					viol("rejects-authentic/pubkey-from-cert-chain", fmt.Sprintf("PubKeyFromCertChain refused the authentic chain %q: %v", name, derr), replay)
 				case derr == nil && rr.Key != nil && !bytes.Equal(dk, rr.Key):
-					run.Violation("wrong-identity/pubkey-from-cert-chain", fmt.Sprintf("PubKeyFromCertChain accepted %q but returned a key that is not the one that signed the binding", name), replay)
+					viol("wrong-identity/pubkey-from-cert-chain", fmt.Sprintf("PubKeyFromCertChain accepted %q but returned a key that is not the one that signed the binding", name), replay)
 				}
 			}
 		}
@@ -453,7 +508,7 @@ func hexChain(raw [][]byte) []string {
 
 func runSeamA(run *evid.Run, acc *enum.Acc) map[string]any {
 	f := newFixtures()
-	st := &seamAStats{acceptByDims: map[string]int{}}
+	st := &seamAStats{acceptByDims: map[string]int{}, vc: &violCollector{m: map[string]*collected{}}}
 	maxDev := 2
 	// (1) crafted certificates: all deviation vectors
 	var specs [][]int
@@ -557,6 +612,7 @@ func runSeamA(run *evid.Run, acc *enum.Acc) map[string]any {
 		}
 		acc.Sample(map[string]any{"seam": "A", "group": "repo-cert/der-mutation", "signer": signer.Name, "der_len": len(der), "mutations": len(muts)})
 	}
+	st.vc.flush(run)
 	if st.accepts == 0 || st.rejects == 0 {
 		evid.Fatal("vacuous seam A: %d accepts, %d rejects", st.accepts, st.rejects)
 	}
